@@ -4,6 +4,6 @@ SPEC_PART = dict(
                mask=[0, 1, 7, 8, 9, 10, 14, 15, 17, 19, 21], n_quick=6, n_thorough=12)],
     trusted=["tdigest: the bound on the number of centroids (2k + 30) is a threshold test (oracle c15_ok), not proved (C15's analytic half)"],
     assumptions=[],
-    covers="tdigest: image size = 8 | 16 | 32 + 16 * centroids; buffer <= 4 * (2k + fudge) for histories from new(k) -- a decoded image's buffer is whatever the image says -- (Props/C18_tdigest.v); tie: "
+    covers="tdigest: image size = 8 | 16 | 32 + 16 * centroids; buffer <= 4 * (2k + fudge) for histories from new(k); a decoded image may announce MORE buffered values than that (image_ok allows any buffer length) and update() used to compress only at exactly the capacity, so such a buffer only grew (2,000,000 updates stayed buffered): fixed defect tdigest-C18-buffer-never-compressed (5ca8d9c, `>=`); proved for the repaired code: after ANY update of ANY reachable state the buffer is within the bound (c18_tdigest_buffer_bound_after_update) (Props/C18_tdigest.v); tie: "
            "serialize().len() after every power-of-two prefix of streams up to 2^14 (quick) / 2^16 (thorough) values checked against the "
            "formula, centroids <= 2k + 30 measured on every dump")
